@@ -283,3 +283,55 @@ Proof.
   - lia.
   - cbn [length]. rewrite app_length. pose proof (nonempty_len R' HR'). unfold len in *. lia.
 Qed.
+
+(* --- single-line comments in front of LF / CR ------------------------------------------------------- *)
+Lemma slc_loop_exchange c0 RR : c0 = 10 \/ c0 = 13 -> forall fuel T R, R <> [] -> no_trunc T = true ->
+  slc_loop fuel (T ++ R) = Ok (len T) ->
+  forall fuel', (length T < fuel')%nat -> slc_loop fuel' (T ++ c0 :: RR) = Ok (len T).
+Proof.
+  intros Hc0. induction fuel as [|fuel IH]; intros T R HR Hnt H fuel' Hf; [discriminate|].
+  destruct fuel' as [|fuel']; [lia|].
+  destruct T as [|c T].
+  { cbn [slc_loop app]. rewrite pkl_cons_0. cbn [rbind]. replace ((c0 =? 13) || (c0 =? 10)) with true by lia. reflexivity. }
+  assert (HR' : c0 :: RR <> []) by discriminate.
+  cbn [slc_loop app] in *. rewrite pkl_cons_0 in H |- *. cbn [rbind] in *. rewrite len_cons in *.
+  pose proof (len_nonneg T) as HT.
+  assert (Hnt0 := Hnt). cbn [no_trunc] in Hnt. apply andb_true_iff in Hnt. destruct Hnt as (Hc & Hnt).
+  destruct ((c =? 13) || (c =? 10)) eqn:Ecr; cbn [orb] in *; [assert (1 + len T = 0) by congruence; lia|].
+  destruct ((c =? 0) && at_endl (c :: T ++ R)); [assert (1 + len T = 0) by congruence; lia|].
+  replace ((c =? 0) && at_endl (c :: T ++ c0 :: RR)) with false by (destruct T; cbn [app at_endl]; rewrite andb_false_r; reflexivity).
+  match type of H with rbind ?e _ = _ => destruct e as [st| |] eqn:Es; cbn [rbind] in H; try discriminate end.
+  destruct st; [assert (1 + len T = 0) by congruence; lia|].
+  assert (Es' : (if 192 <=? c then ' (r, _) <-- peek_rune (c :: T ++ c0 :: RR);; Ok ((r =? 8232) || (r =? 8233)) else Ok false) = Ok false).
+  { destruct (192 <=? c) eqn:E192; [|reflexivity].
+    destruct (peek_rune (c :: T ++ R)) as [[r n]| |] eqn:Er; cbn [rbind] in Es; try discriminate.
+    change (c :: T ++ R) with ((c :: T) ++ R) in Er. change (c :: T ++ c0 :: RR) with ((c :: T) ++ c0 :: RR).
+    destruct (peek_rune_local2 _ _ (c0 :: RR) _ _ Hnt0 ltac:(discriminate) Er HR HR') as (Er' & _).
+    rewrite Er'. exact Es. }
+  rewrite Es'. cbn [rbind]. rewrite skipz_1_cons in H |- *.
+  destruct (slc_loop fuel (T ++ R)) as [n'| |] eqn:Er; cbn [rbind] in H; try discriminate.
+  assert (1 + n' = 1 + len T) by congruence. assert (n' = len T) by lia. subst n'.
+  rewrite (IH _ _ HR Hnt Er); [reflexivity|cbn [length] in Hf; lia].
+Qed.
+
+(* a single-line comment "//..." in front of LF / CR *)
+Lemma comment_exchange_line T R c0 RR n ty e sl : R <> [] -> no_trunc T = true -> c0 = 10 \/ c0 = 13 ->
+  comment (T ++ R) = Ok (n, ty, e, sl) -> n = len T -> firstz 2 T = [47; 47] ->
+  comment (T ++ c0 :: RR) = Ok (n, ty, e, sl).
+Proof.
+  intros HR Hnt Hc0 H Hn Htxt. unfold comment in H |- *.
+  destruct T as [|t0 [|t1 T]]; try discriminate.
+  assert (t0 = 47 /\ t1 = 47) as (-> & ->).
+  { rewrite firstz_cons in Htxt by lia. rewrite firstz_cons in Htxt by lia. split; congruence. }
+  cbn [app] in H |- *. rewrite pkl_1 in H |- *. cbn [rbind] in H |- *.
+  change (47 =? 47) with true in H |- *. cbv iota in H |- *.
+  change (skipz 2 (47 :: 47 :: T ++ R)) with (T ++ R) in H. change (skipz 2 (47 :: 47 :: T ++ c0 :: RR)) with (T ++ c0 :: RR).
+  unfold slc in *.
+  destruct (slc_loop (length (T ++ R)) (T ++ R)) as [n'| |] eqn:Es; cbn [rbind] in H; try discriminate.
+  assert (Hnn : n = 2 + n') by congruence. rewrite !len_cons in Hn. assert (n' = len T) by lia. subst n'.
+  assert (HntT : no_trunc T = true).
+  { cbn [no_trunc] in Hnt. apply andb_true_iff in Hnt. destruct Hnt as (_ & Hnt). apply andb_true_iff in Hnt. apply Hnt. }
+  rewrite (slc_loop_exchange c0 RR Hc0 _ _ _ HR HntT Es).
+  - cbn [rbind]. exact H.
+  - rewrite app_length. cbn [length]. lia.
+Qed.
